@@ -146,6 +146,18 @@ def report(mod, prop, tier, seed, ctx, results, wall, pre_info, partial=False):
                         rep["desc"], rep["file"], rep["line"], rep.get("detail", ""))))
             if not r.replays:
                 inconclusive.append((q.name, "failed without replay"))
+    # vacuity across the sweep: every witness of a harness must be reached by at
+    # least one query of that harness (each query already needs >= 1 witness)
+    if not partial:
+        groups = {}
+        for r in results:
+            g = groups.setdefault(r.q.group, {"ok": set(), "missing": set()})
+            g["ok"].update(r.witness_ok)
+            g["missing"].update(r.witness_missing)
+        for gname, g in groups.items():
+            never = sorted(g["missing"] - g["ok"])
+            if never:
+                inconclusive.append((gname, "vacuous: witnesses never reached by any query of this harness: %s" % ", ".join(never)))
     if pre_info and pre_info.get("errors"):
         for e in pre_info["errors"]:
             inconclusive.append(("pre", e))
